@@ -175,9 +175,14 @@ class PageCache(Entity):
 
     def _load_page(self, page_id: int) -> Generator[float]:
         """Load a page from disk into cache."""
-        yield from self._ensure_space()
         yield self._disk_read_latency_s
-        self._pages[page_id] = _CachedPage(page_id=page_id)
+        if page_id in self._pages:
+            return  # loaded or written by someone else while we were reading
+        # Make room only once the data is here: no suspension may separate the
+        # final capacity check in _ensure_space() from the insertion.
+        yield from self._ensure_space()
+        if page_id not in self._pages:
+            self._pages[page_id] = _CachedPage(page_id=page_id)
 
     def read_page(self, page_id: int) -> Generator[float]:
         """Read a page, serving from cache if present.
@@ -197,10 +202,11 @@ class PageCache(Entity):
         for i in range(1, self._readahead + 1):
             ahead_id = page_id + i
             if ahead_id not in self._pages and len(self._pages) < self._capacity:
-                yield from self._ensure_space()
                 yield self._disk_read_latency_s
-                self._pages[ahead_id] = _CachedPage(page_id=ahead_id)
-                self._readaheads += 1
+                # Re-check after the disk read: read-ahead never evicts
+                if ahead_id not in self._pages and len(self._pages) < self._capacity:
+                    self._pages[ahead_id] = _CachedPage(page_id=ahead_id)
+                    self._readaheads += 1
 
     def write_page(self, page_id: int) -> Generator[float]:
         """Write a page to cache, marking it dirty.
